@@ -79,6 +79,9 @@ pub struct Policy {
     pub stop_boundary: bool,
     pub toggle_stop: bool,
     pub spurious: bool,
+    /// the caller does not consult can_keep_await_100(): it keeps looking at every arrival
+    /// until its timer fires (bounded)
+    pub poll_past_decision: bool,
     /// maximum client think time between steps
     pub think_ns: u64,
     /// maximum per-segment latency
@@ -98,6 +101,7 @@ impl Policy {
             stop_boundary: false,
             toggle_stop: false,
             spurious: false,
+            poll_past_decision: false,
             think_ns: 0,
             lat_ns: 0,
         }
@@ -121,6 +125,7 @@ impl Policy {
             stop_boundary: ctx.chance(1, 3),
             toggle_stop: ctx.chance(1, 6),
             spurious: ctx.chance(1, 3),
+            poll_past_decision: false,
             think_ns: *ctx.pick(&[0u64, 100, 10_000, 2_000_000]),
             lat_ns: *ctx.pick(&[0u64, 1_000, 100_000, 40_000_000]),
         }
@@ -316,6 +321,7 @@ struct Run<'a> {
     stop: bool,
     wake_pending: bool,
     spurious_left: u32,
+    past_decision_polls: u32,
     ex: &'a Exchange<'a>,
     obs: Obs,
 }
@@ -558,6 +564,32 @@ impl<'a> Run<'a> {
             }
             FlowSt::Await100(mut f) => {
                 let keep = lib("Flow<Await100>::can_keep_await_100", || f.can_keep_await_100());
+                let polling_on = !keep && self.ex.policy.poll_past_decision && !self.timer_fired && self.past_decision_polls < 12 && (self.last_try_visible != Some(self.visible) || self.past_decision_polls < 8);
+                if polling_on {
+                    // look again although the library has decided
+                    self.past_decision_polls += 1;
+                    self.last_try_visible = Some(self.visible);
+                    ctx.count("f:caller_polls_past_decision");
+                    let len = self.visible - self.consumed;
+                    let r = lib("repeat_Flow<Await100>::try_read_100", || f.try_read_100(&self.s2c[self.consumed..self.visible]));
+                    ctx.ev(|| format!("t={} Await100.try_read_100(window={}) again -> {:?}", self.now, len, r.as_ref().map_err(err_name)));
+                    self.st = FlowSt::Await100(f);
+                    return match r {
+                        Ok(n) if n <= len => {
+                            self.consumed += n;
+                            Step::Progress
+                        }
+                        Ok(n) => {
+                            self.bound(format!("try_read_100 consumed {} > window {}", n, len));
+                            self.obs.terminal = Terminal::Error("Await100", "bound".into());
+                            Step::Done
+                        }
+                        Err(e) => {
+                            self.obs.terminal = Terminal::Error("Await100", format!("try_read_100: {}", e));
+                            Step::Done
+                        }
+                    };
+                }
                 if !keep || self.timer_fired {
                     if keep {
                         self.obs.gave_up_waiting = true;
@@ -903,6 +935,7 @@ impl<'a> Exchange<'a> {
             stop: false,
             wake_pending: false,
             spurious_left: if self.policy.spurious && !self.policy.canonical { 3 } else { 0 },
+            past_decision_polls: 0,
             ex: self,
             obs,
         };
